@@ -28,3 +28,13 @@ add("C13", "E1",
     "All strings of length <= L over eight lexical alphabets (unary names that are prefixes of each other, log/log2/log10, symbolic prefixes <,<=,<<,=,==, constants incl. Greek, sign chains, braces, Greek identifiers, literal spellings with the default number matcher and the real f64 table): whenever the reference reads a text as well-formed, parse / parse_wo_compile / DeepEx::parse must accept it with the same variables and the same symbolic (resp. numeric) value; texts with an unknown character sequence must be rejected.",
     "Trusted: the reference lexer (documented rules) in harness/src/spec.rs. Texts malformed for non-lexical reasons, unclosed braces are skipped and counted.",
     "DESIGN.md §3 C13")
+add("C14", "E1",
+    "exhaustive enumeration of application orders (schedules of in-place reductions): all k! orders for chains up to 9 operands, every (operator index, consumed-run) tracker situation and all 7! window orders across the 64-operand word boundaries, structured orders at every length up to 257",
+    "Chains of distinct variables whose operator priorities impose the order; evaluated with the symbolic data type through FlatEx (single-word / slice tracker), DeepEx (slice tracker) and to_deepex (own tracker); the result must be the fully reduced chain as the reference parser builds it (each operand exactly once, no placeholder).",
+    "As C01. Tracker situations are characterised by (index, consumed run on the left, consumed run right of the next operand) - see DESIGN.md for the argument that get_next must answer 1 in every reachable state.",
+    "DESIGN.md §3 C14")
+add("C15", "E1",
+    "exhaustive enumeration of variable repetition patterns (all operand sequences up to length 9 under four operator patterns, all small trees) on a clone-counting, default-detecting data type",
+    "For every enumerated expression (folded, unfolded and deep-derived flat form) eval_vec and eval_iter must return exactly eval's symbolic result, which equals the reference; no moved-out placeholder inside the result; a variable occurring exactly once is not cloned; wrong lengths are errors.",
+    "As C01; clone counting in the harness data type's Clone impl.",
+    "DESIGN.md §3 C15")
